@@ -155,7 +155,9 @@ def validateDoscmint (env : Env) (s : State) (rel : Relevant) (tx : Tx) : Outcom
           | some difficulty =>
             if !tx.powProofParses then .reject .malformedTx
             else match env.powOk (env.hdrHash seedHdr) coinId difficulty tx.hash with
-              | .panics => .crash "melpow: Proof::verify panicked"
+              -- since the `fix:` for finding F9 a proof on which `melpow::Proof::verify` panics (it lacks nodes the
+              -- verifier looks up) proves nothing: the transaction is rejected
+              | .panics => .reject .invalidMelPoW
               | .invalid => .reject .invalidMelPoW
               | v =>
                 let tip910 := v = .tip910
